@@ -30,13 +30,17 @@ Definition ok_C17 (c : case17) (o : obs17) : bool :=
    3 ref store tsize=a   4 ref load   5 array store tsize=a n=b i=c   6 array load
    7 array copy_from tsize=a n=b k=c   8 array copy_to   9 atomic load tsize=a
    10 copy_to_volatile_slice len=a   11 read_volatile_from count=a srclen=b   12 write_volatile_to count=a
-   13 slice copy_from len=a tsize=b k=c   14 slice copy_to len=a tsize=b k=c *)
+   13 slice copy_from len=a tsize=b k=c   14 slice copy_to len=a tsize=b k=c
+   descriptor streams (the other end is a File, the transfer a read(2)/write(2) on the guest memory):
+   15 read_volatile_from count=a, the file holds b bytes   16 read_exact_volatile_from count=a, the file holds a+b bytes
+   17 write_volatile_to count=a into a file                18 write_all_volatile_to count=a into a file *)
 Record xopc := { x_code : N; x_off : N; x_a : N; x_b : N; x_c : N }.
 Record case17x := { cx_mode : mode; cx_rkind : N; cx_size : N; cx_gbase : N; cx_page : N;
                     cx_ops : list xopc }.
 (* device events seen by the emulated gntdev during one operation *)
 Inductive dev_ev := DMap (gref count index : N) | DUnmap (index count : N).
-(* r: 0 returned Err, 1 done, 2 panicked, 3 the process died (signal);
+(* r: 0 returned Err, 1 done, 2 panicked, 3 the process died (signal), 4 the kernel refused the guest buffer of
+   a descriptor transfer with EFAULT: at the time of the read(2)/write(2) no mapping covered the bytes;
    data = 1 iff the backing memory (read back through the device file) and the returned bytes are
    what a flat byte array would give;  live = windows still mapped according to the device *)
 Record opobs := { p_r : N; p_data : N; p_live : N; p_evs : list dev_ev }.
@@ -57,6 +61,9 @@ Definition touched (size : N) (op : xopc) : option (N * N) :=
   | 12 => if size <? off then None else Some (off, N.min (size - off) a)
   | 13 | 14 => if off + a <=? size
                then Some (off, if b =? 1 then N.min c a else N.min c (a / b) * b) else None
+  | 15 => if size <? off then None else Some (off, N.min (N.min (size - off) a) b)
+  | 17 => if size <? off then None else Some (off, N.min (size - off) a)
+  | 16 | 18 => if (a =? 0) || negb (off + a <=? size) then None else Some (off, a)
   | _ => None
   end.
 
@@ -69,7 +76,7 @@ Definition covered (ps gbase : N) (evs : list dev_ev) (t : N * N) : bool :=
 
 Definition op_ok (c : case17x) (op : xopc) (o : opobs) : bool :=
   match p_r o with
-  | 3 => false                                              (* the access faulted *)
+  | 3 | 4 => false                                          (* the access faulted / fell outside any mapping *)
   | 2 => match touched (cx_size c) op with                  (* a panic: only outside C17 (zero bytes: C18) *)
          | Some (_, 0) => true | None => true | _ => false end
   | _ =>
